@@ -216,7 +216,9 @@ class BodyMixin:
             raise BodyParsingError()
         elif markup.error is not None:
             raise markup.error
-        listified = set()
+        # repeated names are collected into lists, separately for each of the three views
+        # (a name may be used both for a text field and for an upload)
+        listified = {id(post): set(), id(forms): set(), id(files): set()}
         for item in FieldStorage.iter_items(body, markup.markups, self.config.max_memfile_size):
             if item.filename:
                 it = FileUpload(
@@ -229,14 +231,15 @@ class BodyMixin:
                 dct = forms
             key = item.name
 
-            if key in post:
-                el = post[key]
-                if key not in listified:
-                    el = post[key] = dct[key] = [el]
-                    listified.add(key)
-                el.append(it)
-            else:
-                post[key] = dct[key] = it
+            for dst in (post, dct):
+                if key in dst:
+                    el = dst[key]
+                    if key not in listified[id(dst)]:
+                        el = dst[key] = [el]
+                        listified[id(dst)].add(key)
+                    el.append(it)
+                else:
+                    dst[key] = it
 
     @cache_in('environ[ ombott.request.forms ]', read_only=True)
     def forms(self):
